@@ -85,6 +85,8 @@ class C16(Prop):
             cfg["ident_rate"] = r.choice([0.0, 0.3])
             cfg["name_style"] = r.choice(["unique", "scoped", "pool"])
             cfg["name_pool"] = ["a", "A", "ab", "a_b", "n1", "x y", "a[0]", "1a", "a-b"]
+            cfg["edif_props"] = r.random() < 0.5
+            cfg["mixed_meta"] = r.random() < 0.4
         else:
             cfg["source"] = "example"
             names = corpus.names(fmt, big)
